@@ -1,6 +1,6 @@
 SPECIFICATION TraceSpec
 CONSTANTS
-  NF = 8
+  NF = 14
   MaxT = 1000000
   AtomCap = 8
   MaxAtomMC = 8
